@@ -16,7 +16,7 @@ EXPLANATION = (
     "built from the same file_contents that was parsed and stored under source_file.module. Decides the wiring, not "
     "LineIndex::line_col's arithmetic.")
 NOT_DECIDED = [
-    "LineIndex::line_col's arithmetic for all strings and offsets (a ten-line function whose correctness is its evaluation; `\\r` handling, multi-byte columns)",
+    "`\\r` handling and multi-byte columns (the property counts bytes; the renderer's tab/width handling is not looked at)",
     "display's `range.end() - 1` on an empty range at offset 0 (value-level; see C06 not-decided)",
 ]
 ASSUMPTIONS = ["FileName keys are unique per file (interner)"]
@@ -94,8 +94,97 @@ def r25b(ctx, run):
               loop[0]["ln"] if loop else cf.ln, "a type diagnostic must be rendered with line_indexes[&d.file] and source_files[&d.file].contents")
 
 
+def r25c(ctx, run):
+    """LineIndex::new / line_col evaluated abstractly on a text with two newlines at symbolic positions p1 < p2: for every position of
+    the offset relative to the line starts (before, at, after each), line = number of newlines before the offset and
+    column = offset - start of that line (zero-based bytes; the renderer adds 1, R25.a)"""
+    from symint import SymInterp, Lin, sym, to_lin, norm, Env
+    from absint import Obj, Term, Variant, Panic, CannotEstablish
+    L = "line_index/src/lib.rs"
+    new = ctx.syn.fn("LineIndex::new", L)
+    lc = ctx.syn.fn("LineIndex::line_col", L)
+    idxf = [f for f in ctx.syn.fns_in(L) if f.qual.endswith("::index") and f.body is not None and not f.in_test]
+    if len(idxf) != 1:
+        raise LookupError("impl Index<LineNr> for LineIndex")
+    idxf = idxf[0]
+    p1, p2, off = sym("p1"), sym("p2"), sym("off")
+
+    def value(x, val):
+        l = to_lin(x)
+        return l.c + sum(k * val[a] for a, k in l.t.items())
+
+    class LI(SymInterp):
+        def __init__(self, val):
+            self.val = val
+            super().__init__(order=lambda a, b: (value(a, val) > value(b, val)) - (value(a, val) < value(b, val)),
+                             funcs={"TextSize::from": lambda i, a: a[0], "u32::from": lambda i, a: a[0], "usize::from": lambda i, a: a[0],
+                                    "iter::once": lambda i, a: [a[0]], "std::iter::once": lambda i, a: [a[0]]})
+
+        def eval(self, e, env):
+            if e["k"] == "cast":
+                v = self.eval(e["e"], env)
+                if isinstance(v, (Lin, int)) and not isinstance(v, bool):
+                    return v
+            if e["k"] == "index":
+                b = self.eval(e["e"], env)
+                if isinstance(b, Obj) and b.name == "LineIndex":
+                    return self.inline(idxf, [self.eval(e["i"], env)], recv=b)
+                i = self.eval(e["i"], env)
+                if isinstance(b, list) and isinstance(i, int):
+                    if not (0 <= i < len(b)):
+                        raise Panic("line_starts[%d] out of bounds (%d lines)" % (i, len(b)))
+                    return b[i]
+            if e["k"] == "struct" and e["p"] in ("Self", "LineIndex"):
+                return Obj("LineIndex", **{f[0]: self.eval(f[1], env) for f in e["f"]})
+            return super().eval(e, env)
+
+        def default_method(self, recv, m, args, e):
+            if m == "match_indices" and isinstance(recv, Term) and recv.op == "text":
+                return [(p1, "\n"), (p2, "\n")]
+            if m == "chain" and isinstance(recv, list) and isinstance(args[0], list):
+                return recv + args[0]
+            if m == "partition_point" and isinstance(recv, list):
+                n = 0
+                for x in recv:
+                    if not self.truth(self.call_closure(args[0], [x]), "partition_point predicate"):
+                        break
+                    n += 1
+                return n
+            if m == "binary_search" and isinstance(recv, list):
+                raise CannotEstablish("binary_search on line_starts")
+            return super().default_method(recv, m, args, e)
+    # scenarios: representative valuations of every ordering class of the offset against the two line starts (p1 + 1, p2 + 1)
+    base = {"p1": 10, "p2": 20}
+    cases = [("before the first newline", 5, 0, off), ("on the first newline", 10, 0, off), ("first byte of line 2", 11, 1, SymInterp().binop("-", off, SymInterp().binop("+", p1, 1, {}), {})),
+             ("inside line 2", 15, 1, None), ("on the second newline", 20, 1, None), ("first byte of line 3", 21, 2, None), ("inside line 3", 30, 2, None),
+             ("offset 0", 0, 0, off)]
+    F = "LineIndex::line_col"
+    for desc, ov, want_line, _ in cases:
+        val = dict(base, off=ov)
+        it = LI(val)
+        try:
+            li = it.run_fn(new, {new.param_names()[0]: Term("text")})
+            res = it.inline(lc, [off], recv=li)
+        except (Panic, CannotEstablish) as c:
+            run.finding(F, "line-col:" + desc, lc.file, lc.ln, "cannot establish line_col for an offset %s: %s" % (desc, getattr(c, "what", c)))
+            continue
+        starts = li.fields.get("line_starts") if isinstance(li, Obj) else None
+        want_starts = [0, to_lin(p1).add(to_lin(1)), to_lin(p2).add(to_lin(1))]
+        if not (isinstance(starts, list) and len(starts) == 3 and all(to_lin(a) == to_lin(b) for a, b in zip(starts, want_starts))):
+            run.finding("LineIndex::new", "line-starts", new.file, new.ln, "for a text with newlines at p1 < p2 the line starts are %r; must be [0, p1 + 1, p2 + 1]" % (starts,))
+            return
+        line = res[0].payload.get("0") if isinstance(res, tuple) and isinstance(res[0], Variant) else None
+        col = res[1].payload.get("0") if isinstance(res, tuple) and isinstance(res[1], Variant) else None
+        want_col = to_lin(off).add(to_lin(want_starts[want_line]), -1)
+        good = line == want_line and to_lin(col) is not None and to_lin(col) == to_lin(want_col)
+        run.check(good, lc.site(), "offset %s -> line %s, column %r" % (desc, line, col), F, "line-col:" + desc, lc.file, lc.ln,
+                  "an offset %s gives (line %r, column %r); must be line %d (zero-based: number of newlines before the offset) and column offset - line start = %r"
+                  % (desc, line, col, want_line, norm(want_col)))
+
+
 def rules(ctx):
     return [
         Rule("R25.a", "the header shows the 1-based line/column of the start of the diagnostic's own range", 8, r25a),
+        Rule("R25.c", "LineIndex::new / line_col evaluated on symbolic newline positions: line = newlines before the offset, column = offset - line start, for every ordering class", 8, r25c),
         Rule("R25.b", "the LineIndex handed to the renderer is built from the snippet's text and belongs to the diagnostic's file", 5, r25b),
     ]
